@@ -284,7 +284,15 @@ fn read_column(env: &mut Env, table: &str, column: &str, ctx: &str) {
             } else if let Some(r) = (0..want.len()).find(|r| !cell_acceptable(&want[*r], &got[*r], mix)) {
                 let absent = t.col_index(column).is_none();
                 env.violate(
-                    if absent { "column:absent_reads_data" } else if got[r].is_null() { "column:value_became_null" } else { "column:wrong_data" },
+                    if matches!(&got[r], Cell::S(g) if is_lz4_garbage(g)) {
+                        "cell:wrong_value:lz4_frame_bytes_read_as_string"
+                    } else if absent {
+                        "column:absent_reads_data"
+                    } else if got[r].is_null() {
+                        "column:value_became_null"
+                    } else {
+                        "column:wrong_data"
+                    },
                     format!("[{ctx}] {sql}: row {r} got {}, expected {}", got[r].short(), want[r].short()),
                 );
             } else {
@@ -305,21 +313,26 @@ fn search_columns(env: &mut Env, table: &str, pattern: &str, ctx: &str) {
     let r = crate::env::catch(std::panic::AssertUnwindSafe(|| rt::block_on(db.search_column_names(&tb, &pt)).map_err(|e| e.to_string())));
     sched::progress();
     match r {
-        Ok(Ok(mut got)) => {
+        Ok(Ok(got)) => {
+            // (strings handed out by the database may not be UTF-8, see known findings)
+            let mut got: Vec<String> = got.iter().map(|g| String::from_utf8_lossy(g.as_bytes()).into_owned()).collect();
             got.sort();
             let mut want: Vec<String> = t.cols.iter().filter(|c| c.contains(pattern)).cloned().collect();
             want.sort();
             if got != want {
                 let gs: BTreeSet<_> = got.iter().cloned().collect();
                 env.violate(
-                    if gs.len() != got.len() { "catalogue:column_listed_twice" } else { "catalogue:search_mismatch" },
+                    if got.iter().any(|c| is_lz4_garbage(c)) { GARBAGE_CLASS } else if gs.len() != got.len() { "catalogue:column_listed_twice" } else { "catalogue:search_mismatch" },
                     format!("[{ctx}] search_column_names({table:?}, {pattern:?}) = {got:?}, model {want:?}"),
                 );
             } else {
                 env.count("column_searches");
             }
         }
-        Ok(Err(e)) => env.violate(&format!("read_failed:search:{}", stem(&e)), format!("[{ctx}] search_column_names({table:?}, {pattern:?}) failed: {e}")),
+        Ok(Err(e)) => {
+            let e = String::from_utf8_lossy(e.as_bytes()).into_owned();
+            env.violate(&format!("read_failed:search:{}", stem(&e)), format!("[{ctx}] search_column_names({table:?}, {pattern:?}) failed: {e}"))
+        }
         Err(p) => env.violate("search_panicked", format!("[{ctx}] search_column_names panicked: {}", panic_message(&p))),
     }
 }
